@@ -49,9 +49,17 @@ def latticeCell (ext : List Nat) (ct : String) (c : Nat) : List Nat :=
   let nz := nonzeroExtents ext
   (vtkCorners ct).map fun δ => pointIdx ext (expand ext (addIdx (unflatten nz c) δ))
 
-/-- the geometry of the three descriptions as a function of the lattice position -/
+/-- the geometry of the three descriptions as a function of the lattice position; `lo` = the lower
+    ends of the file's `Extent` attribute: VTK image data places the point with STRUCTURED INDEX
+    (i, j, k) — counted from the extent's lower end — at `origin + D·(spacing ∘ (i, j, k))`; the other
+    two descriptions carry explicit coordinates -/
+def geomAtLo (lo : List Int) (ext : List Nat) : GridGeom → List Nat → List Int
+  | .image U o b s, pos => imagePointZ U o b s (List.zipWith (· + ·) lo (pos.map Int.ofNat))
+  | .rect ords, pos => pick 0 (ords.map fixOrdinates) pos
+  | .struct pts, pos => pts.getD (pointIdx ext pos) []
+
 def geomAt (ext : List Nat) : GridGeom → List Nat → List Int
-  | .image o b s, pos => imagePoint o b s pos
+  | .image U o b s, pos => imagePoint U o b s pos
   | .rect ords, pos => pick 0 (ords.map fixOrdinates) pos
   | .struct pts, pos => pts.getD (pointIdx ext pos) []
 
@@ -68,6 +76,23 @@ def normType (t : String) : String :=
 def gridPointContent (ext : List Nat) (g : GridGeom) (pfs : List PointField) : List PointItem :=
   (List.range (prodNat (ext.map (· + 1)))).map fun p =>
     ⟨geomAt ext g (unflatten (ext.map (· + 1)) p), pfs.map fun pf => (pf.name, pf.values.row p)⟩
+
+/-- the same for a file whose extent starts at `lo` -/
+def filePointContent (lo : List Int) (ext : List Nat) (g : GridGeom) (pfs : List PointField) : List PointItem :=
+  (List.range (prodNat (ext.map (· + 1)))).map fun p =>
+    ⟨geomAtLo lo ext g (unflatten (ext.map (· + 1)) p), pfs.map fun pf => (pf.name, pf.values.row p)⟩
+
+def fileCellContent (lo : List Int) (ext : List Nat) (g : GridGeom) (cfs : List (String × NdArr)) : List CellItem :=
+  let nz := nonzeroExtents ext
+  let ct := normType (latticeType g.kind nz.length)
+  (List.range (prodNat nz)).map fun c =>
+    ⟨ct, (vtkCorners ct).map (fun δ => geomAtLo lo ext g (expand ext (addIdx (unflatten nz c) δ))),
+     cfs.map fun cf => (cf.1, cf.2.row c)⟩
+
+/-- class predicate of the image-offset finding: image data whose extent does not start at 0 -/
+def imageOffset (lo : List Int) : GridGeom → Bool
+  | .image .. => lo.any (· != 0)
+  | _ => false
 
 /-- cell items (normalised to quad/hexahedron): every lattice cell with its corners' coordinates in
     VTK order and row `c` of every cell field -/
